@@ -55,7 +55,20 @@ class ScriptSock:
         self.log.append([min(req, SAT), k])
         return out
 
+    def recv_into(self, buffer, nbytes=0, flags=0):
+        """the other way to read from a socket: same scripted stream, same fragmentation"""
+        mv = memoryview(buffer).cast("B")
+        data = self.recv(nbytes or len(mv), flags)
+        mv[:len(data)] = data
+        return len(data)
+
     def sendall(self, data):
+        pass
+
+    def send(self, data):
+        return len(data)
+
+    def shutdown(self, how=0):
         pass
 
     def close(self):
